@@ -797,9 +797,14 @@ def run_fit_objective(ctx, specs):
                 fd = richardson(f, float(v[i]), 1e-4 * max(1.0, abs(v[i])))
                 if not abs(fd - g[i]) <= 1e-5 * max(1.0, abs(g[i]), abs(fd), abs(f0)):
                     pname = [nm for nm in conv.names if i in list(conv.name_to_index[nm])]
-                    ctx.violation("property", "fitting objective: gradient[%d] (%s) = %r but central differences give %r" % (
-                        i, pname, float(g[i]), fd), case=case,
-                        signature=dict(sig, defect="parameter_gradient", parameter=(pname or ["?"])[0].split("_", 1)[-1]))
+                    sg = dict(sig, defect="parameter_gradient", parameter=(pname or ["?"])[0].split("_", 1)[-1])
+                    if i in placed:   # where the Box-Cox parameter sits relative to the code's case distinction
+                        a = abs(float(v[i]))
+                        sg["boxcox_lambda_region"] = ("abs_eq_eps" if a == 1e-7 else "abs_lt_eps" if a < 1e-7 else
+                                                      "box_corner" if a in (1.0, 2.0) else "abs_gt_eps")
+                    ctx.violation("property", "fitting objective: gradient[%d] (%s) = %r at parameter value %r but central "
+                                  "differences of the objective value give %r" % (i, pname, float(g[i]), float(v[i]), fd),
+                                  case=case, signature=sg)
 
 
 def run(ctx, replay=None):
